@@ -17,6 +17,6 @@ out=["# Seeded property-breaking changes","",
 "| seed | property | change | needs | first run | caught now | by (clause) / history |","|---|---|---|---|---|---|---|"]
 for r in rows: out.append("| %s | %s | %s | %s | %s | %s | %s |" % r)
 n=len(rows); missed=sum(1 for r in rows if r[4]=='missed')
-out+=["",f"{n} changes in six rounds, {missed} missed by the version of the checks they were first run against (`./seed_regress.sh` re-runs them all on scratch copies). All are caught now, with these remarks: C08d has no observable effect any more since the genuine defect it relied on was repaired (fix b11b9db, found on the unchanged tree by the very widening that C08d prompted); C05d, C06e and C16e need overlapping calls and are caught by the concurrency checks C17 / C11, not by the sequential check of their own property. Rounds 1-3: every miss was a gap in an alphabet. Rounds 4 and 5 (authors were told what the earlier changes for their property were and asked for something that needs a specific environment, history, size relation or value class): 16 and 13 of 20 were missed on the first run; in round 6 it was 6 of 20 (plus two that need overlapping calls or a long line and were caught by C11 / C04). Most were alphabet gaps again (environment answers: local time zone, working directory, umask; value classes: empty non-nil maps, near-misses of valid values, strings that coincide under a normalisation, printf verbs, undeclared enum numbers, timestamp range corners, spare slice capacity; shapes and sizes: mixed element kinds, four-node containment shapes, 300 and 2000 nodes; histories: live argument lists, failing calls, stores after a crash, one backend value while the directory changes), one was an ORACLE gap (C19d), and three were SEAM gaps: sync/atomic and first-use state outside the scheduler seam (C17d), sync.Pool outside it plus a confirmation rule that discarded true ThreadSanitizer reports (C17e), and - a defect of the harness itself - atomic counters inside the new map-order seam that ordered goroutines for the race detector (found through C16e). One round-5 change (C02e) was caught on its first run only because the map-iteration-order seam had just been added. Every gap was closed in a general way, never by adding the seed's input; see history.json for each."]
+out+=["",f"{n} changes in seven rounds, {missed} missed by the version of the checks they were first run against (`./seed_regress.sh` re-runs them all on scratch copies). All are caught now, with these remarks: C08d has no observable effect any more since the genuine defect it relied on was repaired (fix b11b9db, found on the unchanged tree by the very widening that C08d prompted); C05d, C06e and C16e need overlapping calls and are caught by the concurrency checks C17 / C11, not by the sequential check of their own property. Rounds 1-3: every miss was a gap in an alphabet. Rounds 4 and 5 (authors were told what the earlier changes for their property were and asked for something that needs a specific environment, history, size relation or value class): 16 and 13 of 20 were missed on the first run; in round 6 it was 6 of 20 (plus two that need overlapping calls or a long line and were caught by C11 / C04), in round 7 14 of 20 (one of them because the read-write lock shim did not model writer preference). Most were alphabet gaps again (environment answers: local time zone, working directory, umask; value classes: empty non-nil maps, near-misses of valid values, strings that coincide under a normalisation, printf verbs, undeclared enum numbers, timestamp range corners, spare slice capacity; shapes and sizes: mixed element kinds, four-node containment shapes, 300 and 2000 nodes; histories: live argument lists, failing calls, stores after a crash, one backend value while the directory changes), one was an ORACLE gap (C19d), and three were SEAM gaps: sync/atomic and first-use state outside the scheduler seam (C17d), sync.Pool outside it plus a confirmation rule that discarded true ThreadSanitizer reports (C17e), and - a defect of the harness itself - atomic counters inside the new map-order seam that ordered goroutines for the race detector (found through C16e). One round-5 change (C02e) was caught on its first run only because the map-iteration-order seam had just been added. Every gap was closed in a general way, never by adding the seed's input; see history.json for each."]
 open('seeded/README.md','w').write("\n".join(out)+"\n")
 print(n,missed)
